@@ -240,3 +240,38 @@ def install_upload_events(columns_of: Callable[[Any], List[str]]) -> None:
             emit({"ev": "upload", "cfw": str(self.uuid), "cols": None, "err": str(e)[:80]})
         return r
     ComputeFramework.upload_finished_data = upload_finished_data  # type: ignore[method-assign]
+
+
+# ------------------------------------------------------------------------------------------------------------
+# python mirror of conflict_free / conflict_free_x (Model/OrchCheck.v), used to decide ONLINE whether a request may be run
+# in THREADING / MULTIPROCESSING (plans with two unordered steps on one object are schedule dependent: known findings of
+# C01 / C06).  Every decision is re-validated afterwards by the Coq definitions (cf_terms -> chk_cf / chk_cfx).
+# ------------------------------------------------------------------------------------------------------------
+def conflict_free_py(plan: Dict[str, Any], foot: Dict[int, Tuple[int, List[int]]], across_objects_only: bool = False) -> bool:
+    steps = plan["steps"]
+    prod = {u: s["sid"] for s in steps for u in s["uuids"]}
+    direct = {s["sid"]: {prod[u] for u in s["req"] if u in prod} for s in steps}
+
+    def waits_for(i: int) -> Set[int]:
+        acc: Set[int] = set()
+        todo = [i]
+        while todo:
+            x = todo.pop()
+            for y in direct.get(x, ()):
+                if y not in acc:
+                    acc.add(y)
+                    todo.append(y)
+        return acc
+    w = {s["sid"]: waits_for(s["sid"]) for s in steps}
+    for a in steps:
+        for b in steps:
+            i, j = a["sid"], b["sid"]
+            if not (i < j) or i in w[j] or j in w[i] or i not in foot or j not in foot:
+                continue
+            (wa, ra), (wb, rb) = foot[i], foot[j]
+            if across_objects_only:
+                if wa != wb and (wa in rb or wb in ra):
+                    return False
+            elif wa == wb or wa in rb or wb in ra:
+                return False
+    return True
